@@ -149,7 +149,67 @@ def test_set(repo, mod, test, var, U):
             return acc
         raise Undecidable(f"unsupported test: {ast.unparse(t)}")
 
+    def inline(e, depth=0):
+        """Replace calls of single-expression module functions by their body (pure helpers)."""
+        if depth > 3:
+            return e
+        import copy
+
+        class T(ast.NodeTransformer):
+            def visit_Call(self, node):
+                self.generic_visit(node)
+                if isinstance(node.func, ast.Name) and node.func.id in mod.funcs and not node.keywords:
+                    f = mod.funcs[node.func.id]
+                    body = [x for x in f.body if not (isinstance(x, ast.Expr) and isinstance(x.value, ast.Constant))]
+                    params = [a.arg for a in f.args.args]
+                    if len(body) == 1 and isinstance(body[0], ast.Return) and body[0].value is not None and len(params) == len(node.args):
+                        sub = dict(zip(params, node.args))
+
+                        class S(ast.NodeTransformer):
+                            def visit_Name(self, n):
+                                return copy.deepcopy(sub[n.id]) if n.id in sub else n
+                        return inline(S().visit(copy.deepcopy(body[0].value)), depth + 1)
+                return node
+        return T().visit(copy.deepcopy(e))
+
+    def linear(e):
+        """e == var + b  ->  b   (None if not of that form)"""
+        if is_var(e):
+            return 0
+        if isinstance(e, ast.BinOp) and isinstance(e.op, (ast.Add, ast.Sub)):
+            if is_var(e.left) and not _mentions(e.right, var):
+                c = const(e.right)
+                return c if isinstance(e.op, ast.Add) else -c
+            if isinstance(e.op, ast.Add) and is_var(e.right) and not _mentions(e.left, var):
+                return const(e.left)
+        return None
+
+    def shifted(s, b):
+        """set of var such that var + b in s"""
+        return ISet([(lo - b, hi - b) for lo, hi in s.ivs], U.lo, U.hi)
+
     def pair(l, op, r):
+        l, r = inline(l), inline(r)
+        # (var + b) // c op k  and  var + b op k : solve for u = var + b, then shift back
+        for a_, b_, left in ((l, r, True), (r, l, False)):
+            inner = a_.left if isinstance(a_, ast.BinOp) and isinstance(a_.op, (ast.FloorDiv, ast.Mod)) else a_
+            sh = None
+            try:
+                sh = linear(inner)
+            except Undecidable:
+                sh = None
+            if sh not in (None, 0) and not _mentions(b_, var):
+                import copy
+                uvar = ast.Name(id=var, ctx=ast.Load())
+                if inner is a_:
+                    a2 = uvar
+                else:
+                    a2 = ast.BinOp(left=uvar, op=a_.op, right=a_.right)
+                su = pair0(a2, op, b_) if left else pair0(b_, op, a2)
+                return shifted(su, sh)
+        return pair0(l, op, r)
+
+    def pair0(l, op, r):
         if is_var(l) and not _mentions(r, var):
             if isinstance(op, (ast.In, ast.NotIn)):
                 s = range_set(r)
